@@ -14,6 +14,16 @@ What a theorem about the model can carry — the *index logic*:
    `append_beyond_capacity_rejected`);
  * `current_transitions_bounded`: `currentTransitions` (and hence `previousTransitions`) holds at most
    `COMPO_COUNT × SUBSTITUTION_LIMIT` entries;
+ * `replay_history_bounded`, `replay_beyond_capacity_dropped` (end of the file): replaying an over-long history
+   writes at most `COMPO_COUNT × SUBSTITUTION_LIMIT` (`Config.historyCap`) entries into `previousTransitions` —
+   the copy goes through the bounded `DynamicArrayT::emplace`, the excess is dropped silently (every transition
+   of the list is still APPLIED);
+ * `replay_pins_in_range`, `replay_pins_in_range_history`, `replay_last_transition_is_recorded` (end of the file):
+   whatever list is replayed, every index the replay leaves in `transitionTargets` is below `historyCap` (and below
+   the length of the list), i.e. addresses an entry that WAS recorded — `lastTransitionTo()` never indexes
+   `previousTransitions` beyond what the replay wrote.  (`R_::applyRequests` passes `INVALID_SHORT` for the entries
+   beyond the capacity, /repo fix 6770c20; before it the pin of a dropped entry made `lastTransitionTo()` read an
+   unwritten slot of the array);
  * `err_sticky*` + `dispatch_in_range`: the model's contract-violation flag `err` is set at every
    sub-state dispatch with an index outside the region and is never cleared, so an operation that ends
    with `err = none` performed only in-range dispatches (all `…At` functions of Model/*.lean);
@@ -25,6 +35,7 @@ the HFSM2_VERIF assertion hook, the allocation interposer harness/proposed/mach_
 -/
 import Hfsm.Proofs.Bounds
 import Hfsm.Proofs.DemoMach
+import Hfsm.Proofs.Replay
 
 set_option linter.unusedVariables false
 set_option linter.unusedSectionVars false
@@ -149,6 +160,158 @@ theorem dispatch_in_range (s : Subs) (i : Nat) (w : World U) (rq : Req) (ph : Me
    queryAt_inRange hf s i w, updatePlansAt_inRange s i w, requestAt_inRange rq s i w,
    fwdRequestAt_inRange rq s i w, fwdActiveAt_inRange rq s i w, reportChangeAt_inRange s i w⟩
 
+/-! ## replaying over-long histories
+
+`replayTransitions(ts)` / `replayEnter(ts)` copy `ts` into `previousTransitions` entry by entry with
+`DynamicArrayT::emplace`, which ignores what does not fit: the copy is `ts.take historyCap`,
+`historyCap = COMPO_COUNT × SUBSTITUTION_LIMIT` (the capacity of `TransitionSets`). -/
+
+/-- Whatever list is replayed, `previousTransitions` afterwards holds at most `COMPO_COUNT × SUBSTITUTION_LIMIT`
+entries (of the instance's constant configuration: `cfg_invariant`).  `replayTransitions` clears or overwrites the
+field; `replayEnter` overwrites it when it answers `true` and leaves it alone when it answers `false`, hence the
+alternative hypothesis that it was within bounds before. -/
+theorem replay_history_bounded (m : Mach U) (ts : List Transition) :
+    (m.replayTransitions ts).1.w.previous.length ≤ m.w.cfg.historyCap ∧
+    ((m.replayEnter ts).2 = true ∨ m.w.previous.length ≤ m.w.cfg.historyCap →
+      (m.replayEnter ts).1.w.previous.length ≤ m.w.cfg.historyCap) := by
+  refine ⟨?_, fun h => ?_⟩
+  · rw [Mach.replayTransitions_previous]
+    split
+    · rw [List.length_take]; exact Nat.min_le_left _ _
+    · exact Nat.zero_le _
+  · rw [Mach.replayEnter_previous]
+    split
+    · rw [List.length_take]; exact Nat.min_le_left _ _
+    · next hf =>
+      rcases h with h | h
+      · exact absurd h hf
+      · exact h
+
+/-- … the configuration the bound refers to is also the one of the instance after the replay -/
+theorem replay_cfg_invariant (m : Mach U) (ts : List Transition) :
+    (m.replayTransitions ts).1.w.cfg = m.w.cfg ∧ (m.replayEnter ts).1.w.cfg = m.w.cfg :=
+  ⟨Mach.replayTransitions_cfg m ts, Mach.replayEnter_cfg m ts⟩
+
+/-- **An over-long history is truncated, not rejected.**  A replay that answers `true` stores the first
+`historyCap` entries of the list; when the list is longer than that, `previousTransitions` is full and is a
+proper prefix of what was replayed: the tail is applied to the registry but not recorded. -/
+theorem replay_beyond_capacity_dropped (m : Mach U) (ts : List Transition) (hlong : m.w.cfg.historyCap < ts.length) :
+    ((m.replayTransitions ts).2 = true →
+      (m.replayTransitions ts).1.w.previous = ts.take m.w.cfg.historyCap ∧
+      (m.replayTransitions ts).1.w.previous.length = m.w.cfg.historyCap ∧
+      (m.replayTransitions ts).1.w.previous ≠ ts) ∧
+    ((m.replayEnter ts).2 = true →
+      (m.replayEnter ts).1.w.previous = ts.take m.w.cfg.historyCap ∧
+      (m.replayEnter ts).1.w.previous.length = m.w.cfg.historyCap ∧
+      (m.replayEnter ts).1.w.previous ≠ ts) := by
+  have key : ∀ p : List Transition, p = ts.take m.w.cfg.historyCap →
+      p = ts.take m.w.cfg.historyCap ∧ p.length = m.w.cfg.historyCap ∧ p ≠ ts := by
+    intro p hp
+    have hl : p.length = m.w.cfg.historyCap := by
+      rw [hp, List.length_take]; exact Nat.min_eq_left (Nat.le_of_lt hlong)
+    refine ⟨hp, hl, fun he => ?_⟩
+    rw [he] at hl
+    exact absurd hl (Nat.ne_of_gt hlong)
+  refine ⟨fun h => key _ ?_, fun h => key _ ?_⟩
+  · rw [Mach.replayTransitions_previous, h, if_pos rfl]
+  · rw [Mach.replayEnter_previous, h, if_pos rfl]
+
+namespace W
+/-- the demonstration machine `C(0)[1 2]` (`COMPO_COUNT = 1`, `SUBSTITUTION_LIMIT = 4`: `historyCap = 4`) with idle
+callbacks, activated in state 1 -/
+def auto : Mach Demo.DU := Api.boot Demo.shape Demo.cfg (List.replicate 40 []) []
+/-- the same machine with manual activation, not entered yet -/
+def manual : Mach Demo.DU := Api.boot Demo.shape { Demo.cfg with manual := true } (List.replicate 40 []) []
+/-- a history of five transitions, one more than fits -/
+def five : List Transition :=
+  [⟨none, 2, .change, none⟩, ⟨none, 1, .change, none⟩, ⟨none, 2, .change, none⟩, ⟨none, 1, .change, none⟩,
+   ⟨none, 2, .change, none⟩]
+end W
+
+/-- the hypotheses are met, on both entry points, without a contract violation: five transitions replayed on a
+machine whose `previousTransitions` holds four — all five are applied (state 2 ends active), four are recorded -/
+example : W.auto.w.cfg.historyCap = 4 ∧ W.auto.w.cfg.historyCap < W.five.length ∧
+    (W.auto.replayTransitions W.five).2 = true ∧ (W.auto.replayTransitions W.five).1.w.err = none ∧
+    (W.auto.replayTransitions W.five).1.w.previous = W.five.take 4 ∧
+    (W.auto.replayTransitions W.five).1.root.isActive 2 = true := by decide +kernel
+
+example : W.manual.w.cfg.historyCap < W.five.length ∧ W.manual.root.isActive 0 = false ∧
+    (W.manual.replayEnter W.five).2 = true ∧ (W.manual.replayEnter W.five).1.w.err = none ∧
+    (W.manual.replayEnter W.five).1.w.previous = W.five.take 4 ∧
+    (W.manual.replayEnter W.five).1.root.isActive 2 = true := by decide +kernel
+
+/-! ## the pins of a replay address recorded entries
+
+`R_::applyRequests` applies entry `i` of the replayed list with its index (`pinLastTransition` stores it in
+`transitionTargets`) only while `i < historyCap`; the entries that `previousTransitions` cannot hold are applied with
+`INVALID_SHORT`, which pins nothing (/repo fix 6770c20, `Mach.applyRequestNoPin`). -/
+
+/-- **Whatever list is replayed, every pin the replay makes is in range.**  After `replayTransitions ts` /
+`replayEnter ts` an entry of `transitionTargets` is either what the `clearTargets()` at the start of the replay left
+there, or an index `i < historyCap`, `i < ts.length`: one of the entries the replay records. -/
+theorem replay_pins_in_range (m : Mach U) (ts : List Transition) (s : Nat) :
+    ((m.replayTransitions ts).1.w.targets.getD s none = m.w.clearTargets.targets.getD s none ∨
+      ∃ i, i < m.w.cfg.historyCap ∧ i < ts.length ∧ (m.replayTransitions ts).1.w.targets.getD s none = some i) ∧
+    ((m.replayEnter ts).1.w.targets.getD s none = m.w.clearTargets.targets.getD s none ∨
+      ∃ i, i < m.w.cfg.historyCap ∧ i < ts.length ∧ (m.replayEnter ts).1.w.targets.getD s none = some i) :=
+  ⟨Mach.replayTransitions_targets m ts s, Mach.replayEnter_targets m ts s⟩
+
+/-- With the transition history compiled in (`clearTargets()` empties every entry) EVERY index found in
+`transitionTargets` after a replay is below `historyCap` and below the length of the replayed list. -/
+theorem replay_pins_in_range_history (m : Mach U) (ts : List Transition) (hh : m.w.cfg.history = true) (s i : Nat) :
+    ((m.replayTransitions ts).1.w.targets.getD s none = some i → i < m.w.cfg.historyCap ∧ i < ts.length) ∧
+    ((m.replayEnter ts).1.w.targets.getD s none = some i → i < m.w.cfg.historyCap ∧ i < ts.length) := by
+  have hc := Mach.clearTargets_getD m.w hh s
+  obtain ⟨h1, h2⟩ := replay_pins_in_range m ts s
+  rw [hc] at h1 h2
+  refine ⟨fun h => ?_, fun h => ?_⟩
+  · rcases h1 with h1 | ⟨j, hj1, hj2, h1⟩
+    · rw [h1] at h; cases h
+    · rw [h1] at h; cases h; exact ⟨hj1, hj2⟩
+  · rcases h2 with h2 | ⟨j, hj1, hj2, h2⟩
+    · rw [h2] at h; cases h
+    · rw [h2] at h; cases h; exact ⟨hj1, hj2⟩
+
+/-- … hence after a replay that answered `true`, `lastTransitionTo(s)` of a pinned state reads a WRITTEN slot of
+`previousTransitions`, and what it finds there is the entry of the replayed list that pinned the state. -/
+theorem replay_last_transition_is_recorded (m : Mach U) (ts : List Transition) (hh : m.w.cfg.history = true) (s i : Nat) :
+    ((m.replayTransitions ts).2 = true → (m.replayTransitions ts).1.w.targets.getD s none = some i →
+      i < (m.replayTransitions ts).1.w.previous.length ∧ (m.replayTransitions ts).1.lastTransitionTo s = ts[i]?) ∧
+    ((m.replayEnter ts).2 = true → (m.replayEnter ts).1.w.targets.getD s none = some i →
+      i < (m.replayEnter ts).1.w.previous.length ∧ (m.replayEnter ts).1.lastTransitionTo s = ts[i]?) := by
+  obtain ⟨h1, h2⟩ := replay_pins_in_range_history m ts hh s i
+  have key : ∀ p : List Transition, p = ts.take m.w.cfg.historyCap → i < m.w.cfg.historyCap ∧ i < ts.length →
+      i < p.length ∧ p[i]? = ts[i]? := by
+    intro p hp hi
+    subst hp
+    rw [List.length_take, List.getElem?_take, if_pos hi.1]
+    exact ⟨by omega, rfl⟩
+  refine ⟨fun ha ht => ?_, fun ha ht => ?_⟩
+  · have := key (m.replayTransitions ts).1.w.previous (by rw [Mach.replayTransitions_previous, ha, if_pos rfl]) (h1 ht)
+    refine ⟨this.1, ?_⟩
+    unfold Mach.lastTransitionTo
+    rw [ht]
+    exact this.2
+  · have := key (m.replayEnter ts).1.w.previous (by rw [Mach.replayEnter_previous, ha, if_pos rfl]) (h2 ht)
+    refine ⟨this.1, ?_⟩
+    unfold Mach.lastTransitionTo
+    rw [ht]
+    exact this.2
+
+/-- on the witness of `replay_beyond_capacity_dropped` (five transitions, `historyCap = 4`): state 2, activated by the
+replay, is requested by entries 0, 2 and 4 of the list; entry 4 is not recorded and does not pin — `lastTransitionTo(2)`
+points at entry 2, a recorded one (before the fix 6770c20 it was index 4, beyond the four recorded entries) -/
+example : W.auto.w.cfg.history = true ∧ (W.auto.replayTransitions W.five).2 = true ∧
+    (W.auto.replayTransitions W.five).1.root.isActive 2 = true ∧
+    (W.auto.replayTransitions W.five).1.w.targets.getD 2 none = some 2 ∧
+    2 < (W.auto.replayTransitions W.five).1.w.previous.length ∧
+    (W.auto.replayTransitions W.five).1.lastTransitionTo 2 = some ⟨none, 2, .change, none⟩ := by decide +kernel
+
+example : W.manual.w.cfg.history = true ∧ (W.manual.replayEnter W.five).2 = true ∧
+    (W.manual.replayEnter W.five).1.root.isActive 2 = true ∧
+    (∀ s < 3, ∀ i, (W.manual.replayEnter W.five).1.w.targets.getD s none = some i → i < 4) ∧
+    (W.manual.replayEnter W.five).1.lastTransitionTo 2 ≠ none := by decide +kernel
+
 end Hfsm.Props.C11
 
 /-
@@ -156,5 +319,7 @@ Property theorems (for Props/INDEX.json):
   bounded_fresh, bounded_step, bounded_run, bounded_always, bounded_during_commit, bounded_during_update,
   request_beyond_capacity_rejected, callback_request_beyond_capacity_rejected,
   append_beyond_capacity_rejected, current_transitions_bounded,
-  cfg_invariant, err_sticky, err_sticky_run, err_sticky_commit, dispatch_in_range
+  cfg_invariant, err_sticky, err_sticky_run, err_sticky_commit, dispatch_in_range,
+  replay_history_bounded, replay_cfg_invariant, replay_beyond_capacity_dropped,
+  replay_pins_in_range, replay_pins_in_range_history, replay_last_transition_is_recorded
 -/
